@@ -45,8 +45,10 @@ def surface(f):
     for tr, m in (("asynchronous_codec::Decoder", "decode"), ("MultiPeerBackend", "peer_connected"),
                   ("MultiPeerBackend", "peer_disconnected"), ("SocketRecv", "recv")):
         roots += [b.path for b in trait_impls(f, tr, m).values()]
+    from . import hs
+    hpaths = {v for k, v in hs.anchors(f).items() if k in ("negotiate", "greet", "ready", "driver")}
     for b in f.bodies:
-        if any(b.path.endswith(s) for s in ("util::negotiate_version", "util::greet_exchange", "util::ready_exchange", "util::peer_connected")):
+        if b.path in hpaths:
             roots.append(b.path)
         if b.j.get("name") in ("try_from", "from_str") and b.kind == "AssocFn" and any(
                 x in (b.j.get("impl_self") or "") for x in ("SocketType", "PeerIdentity", "ZmqGreeting", "ZmqCommand", "ZmqMechanism")):
